@@ -127,6 +127,15 @@ theorem C14_attempt_limit_step (cfg : Cfg) (f : Fail) (s : St) (hr : s.startD = 
     simp [handleFetchError, fetchErrorTail, hr, hs, hf, this, startErrback, emit]
   · simp [handleFetchError, fetchErrorTail, hr, hs, hf, h0, retryFetch, hd, ht, emit]
 
+/-- Trace level: the sizes announced in successive fetch requests follow the growth rule - a request repeats the
+    previous size, or (only after a too-small answer) carries exactly the sixteen-fold / doubled / capped size;
+    the start Deferred fails with ConsumerFetchSizeTooSmall only after a too-small answer at the maximum -
+    on every trace: any configuration, any processor script, any events (restarts, late and cancelled replies,
+    re-entrant calls included). -/
+theorem C14_growth_trace (cfg : Cfg) (script : List PEntry) (evs : List Ev) :
+    growthOk cfg.bufInit cfg.bufMax (trace cfg script evs) = true :=
+  accepts_trace _ _ cfg script evs (run_gr cfg script evs).grOk
+
 /-! Non-vacuity: the default configuration (128 KiB, no maximum) reaches a 20 MiB message in five growths
 (2, 4, 8, 16, 32 MiB). -/
 example : growN none 5 fetchBufferSizeBytes ≥ 20 * 2 ^ 20 ∧ growN none 4 fetchBufferSizeBytes < 20 * 2 ^ 20 := by decide
@@ -144,11 +153,11 @@ C14_reset_policy
 C14_backoff_step
 C14_success_resets
 C14_attempt_limit_step
+C14_growth_trace
 -/
 /- OPEN_STATEMENTS
 C14_delays
 C14_attempt_limit
 C14_reset_policy_trace
-C14_growth_trace
 C14_never_skips_trace
 -/
